@@ -51,6 +51,18 @@ CHECKS = {
         "Trusted: Python integer arithmetic for the Gray laws; float32 tolerance 1e-5 on energies.",
         "3 C14",
     ),
+    "C06": (
+        "runtime monitoring: reference-model oracle at the demodulator boundary - effective constellation obtained from the real modulator, nearest-point and exact max-log numerator computed independently, LLR*sigma^2/Delta required to be one positive constant",
+        "Held for every scheme (differential/alternating/offset ones on their decision variable) on dense grids, decision-boundary probes, far outliers, noise variances over six decades in float/0-dim/per-symbol form. Exploration (millions of decided points per run).",
+        "Trusted: vk.oracles.refmod (float64 numpy) after self-test; float32 cancellation floor 4e-6*(|y|+scale)^2 on the constancy clause.",
+        "3 C06",
+    ),
+    "C15": (
+        "runtime monitoring: producer x consumer polarity matrix - every soft demodulator and a reference producer (1-2b)*A into every LLR consumer (thresholders, utilities, soft-input decoders) with exact bit-equality oracle; adaptive thresholds judged by a monotonicity + extremes polarity oracle",
+        "Held (apart from two test-pinned thresholder findings) for all producers x consumers, sequences exhaustive to length 8 (thorough) and seeded, magnitudes 1e-3..1e3. Exploration with exhaustive short-sequence sub-space.",
+        "Trusted: the reference producer; the expected-bits model of C05 for schemes with start-up loss.",
+        "3 C15",
+    ),
 }
 
 ALL = [f"C{i:02d}" for i in range(1, 21)]
